@@ -11,6 +11,12 @@ import (
 )
 
 func checkVersionsOn(what string, t *iavl.MutableTree, m *Model, probe []byte) *Violation {
+	return checkVersionsOnX(what, t, m, probe, true)
+}
+
+// checkVersionsOnX: loaded=false is used for an instance on which nothing has been loaded yet (its working tree
+// is not defined by the model, so Version / WorkingVersion are not compared).
+func checkVersionsOnX(what string, t *iavl.MutableTree, m *Model, probe []byte, loaded bool) *Violation {
 	want := m.Versions()
 	got := t.AvailableVersions()
 	same := len(got) == len(want)
@@ -32,10 +38,14 @@ func checkVersionsOn(what string, t *iavl.MutableTree, m *Model, probe []byte) *
 		return v
 	}
 	// the version the working tree is based on and the number the next commit will get
-	if got := t.Version(); got != m.Cur {
+	if !loaded {
+		// skip
+	} else if got := t.Version(); got != m.Cur {
 		return viol("versions", "%s: Version() = %d, the working tree is based on version %d", what, got, m.Cur)
 	}
-	if got := t.WorkingVersion(); got != m.WorkingVersion() {
+	if !loaded {
+		// skip
+	} else if got := t.WorkingVersion(); got != m.WorkingVersion() {
 		return viol("versions", "%s: WorkingVersion() = %d, the next commit is version %d", what, got, m.WorkingVersion())
 	}
 	lv, err := t.GetLatestVersion()
@@ -106,6 +116,13 @@ func oracleVersions(probe []byte) Oracle {
 		fm.Reopen()
 		if v := checkVersionsOn("fresh instance", t, fm, probe); v != nil {
 			return v
+		}
+		// an instance on which nothing has been loaded yet answers the version queries all the same
+		tc := w.Cfg.newTree(st.Clone(), w.Cfg.Cache, !w.Cfg.Fast)
+		vc := checkVersionsOnX("new instance before any Load", tc, fm, probe, false)
+		_ = tc.Close()
+		if vc != nil {
+			return vc
 		}
 		// LoadVersion(v) for every v on scratch instances
 		for _, v := range m.VersionCandidates(1) {
